@@ -155,7 +155,15 @@ def judge(spec, scenario, history):
     probes = {}
     if len(scenario["actors"]) > 1:
         probes["concurrent_callers"] = 1
-    seen = {}     # uuid -> op id that first carried it
+    # every invocation must reach the wire (or fail with the injected status): an exception raised by the
+    # population code itself (before anything is sent) is a violation, not a skipped run
+    for oid, op in ops.items():
+        evs = by.get(oid, [])
+        oc = next((e for e in evs if e["k"] in ("return", "raise")), None)
+        if oc is not None and oc["k"] == "raise" and not oc.get("api_error") and oc.get("cls") != "RetryError":
+            return [{"rule": "call_failed", "op": oid, "method": op["method"], "msg": f"{scenario['client']} call raised "
+                     f"{oc.get('cls')}: {oc.get('msg')} ({len([e for e in evs if e['k'] == 'attempt'])} attempt(s) were sent)"}], probes
+    seen = {}     # uuid -> (op id, field) that first carried it
     for e in history:          # global event order
         if e["k"] != "attempt" or e.get("op") not in ops:
             continue
@@ -216,9 +224,10 @@ def judge(spec, scenario, history):
                 if not UUID4.match(wire):
                     return V("not_uuid4", f"{f} was left {'empty' if st == 'empty' else 'unset'} by the caller; attempt "
                              f"{e['n']} carried {wire!r}, which is not an RFC-4122 version-4 UUID")
-                owner = seen.setdefault(wire, op["id"])
-                if owner != op["id"]:
-                    return V("uuid_not_fresh", f"{f}={wire} was already sent by invocation {owner}")
+                owner = seen.setdefault(wire, (op["id"], f))
+                if owner != (op["id"], f):
+                    return V("uuid_not_fresh", f"{f}={wire} was already sent as {owner[1]} of invocation {owner[0]}: every "
+                             f"auto-populated field of every invocation needs its own fresh UUID")
                 _bump(probes, "populated")
                 if st == "empty":
                     _bump(probes, "empty_on_plain_populated")
